@@ -306,11 +306,11 @@ def pipe_case(case, env):
 def check(tier, seed, t0):
     common.build_rg()
     os.chmod(common.scratch_root(), 0o755)
-    nf = 40 if tier == "quick" else 1500
+    nf = 150 if tier == "quick" else 4000
     nb = 2 if tier == "quick" else 16
-    np_ = 4 if tier == "quick" else 32
+    np_ = 8 if tier == "quick" else 64
     ex = {"tier": tier}
-    parts = [("faults", common.run_cli_cases(None, fault_case, seed, "c15f", nf, 3 if tier == "quick" else 94, extra=ex)),
+    parts = [("faults", common.run_cli_cases(None, fault_case, seed, "c15f", nf, 10 if tier == "quick" else 125, extra=ex)),
              ("invalid-arguments", common.run_cli_cases(None, badarg_case, seed, "c15b", nb, 1, extra=ex)),
              ("broken-pipe", common.run_cli_cases(None, pipe_case, seed, "c15p", np_, 1 if tier == "quick" else 2, extra=ex))]
     rep = common.merge_reports(parts)
